@@ -220,6 +220,7 @@ def id_oracle(ctx, exe):
 
 
 def selftests_c08(ctx, traces):
+    """traces: runs TLC accepted (the corrupted copies must be rejected for the corruption, not for something else)."""
     base = None
     for t in traces:
         ends = [e for e in t if e["e"] == "CallEnd" and e["k"] == "reply"]
@@ -275,7 +276,8 @@ def run(ctx):
         recs, sets, orc = id_oracle(ctx, exe)
         failures, st, _ = validate(ctx, traces, C08_INV, "c08", groups=ctx.pick(3, 6))
         ctx.log("traces validated: %d rejected" % len(failures))
-        selftest = selftests_c08(ctx, traces)
+        bad = {id(t) for t, _ in failures}
+        selftest = selftests_c08(ctx, [t for t in traces if id(t) not in bad])
         ctx.log("self-tests done")
         mc = collect_mc(futs)
         ctx.log("model checking done")
@@ -297,8 +299,13 @@ def run(ctx):
             sig = "C08:%s:%s" % (f["invariant"][0], cls)
             what = "run of class '%s' (%d callers) violates %s at event %s" % (cls, t[0]["k"], f["invariant"][0], json.dumps(f["event"]))
         else:
-            sig = "C08:trace-rejected:%s:%s" % (cls, f["event"].get("e"))
-            what = "run of class '%s' (%d callers) is not a behaviour of ClientMux at event %s" % (cls, t[0]["k"], json.dumps(f["event"]))
+            ev = f["event"]
+            sig = "C08:trace-rejected:%s:%s" % (cls, ev.get("e"))
+            what = "run of class '%s' (%d callers) is not a behaviour of ClientMux at event %s" % (cls, t[0]["k"], json.dumps(ev))
+            if ev.get("e") == "CallEnd" and ev.get("k") == "reply" and ev.get("tag") not in (0, ev.get("c")):
+                sig = "C08:reply-of-another-call:%s" % cls
+                what = "caller %d was handed a response carrying the payload of caller %d's request (response id %d, peer packet %d)" % (
+                    ev["c"], ev["tag"], ev["rid"], ev["p"])
         ctx.violate(sig, what, describe(t, f))
     ncalls = sum(t[0]["k"] for t in traces)
     outcomes = {}
